@@ -14,8 +14,10 @@ R-C05.1  "each operand once, in order, short-circuit operands behind their test"
          decided by counting the evaluation uses of the duplicated node.
 R-C05.2  ordering mechanism in place: the side-effect list names results, panic, exit,
          state-result, qubit alloc/free/measure-free; calls count as side effects; every
-         compile_inner runs inside track_hugr_side_effects; the tracker links each new
-         side-effecting node after the previous one of its parent and restores Hugr.add_node.
+         compile_inner runs inside track_hugr_side_effects; the tracker itself is interpreted (c05_tracker.py): its `with`
+         body builds 259 model HUGRs through the patched Hugr.add_node -- in every dataflow parent the order links are exactly
+         Input -> e1 -> ... -> en -> Output over the children that have or contain a side effect, containers are marked in
+         their parents, nothing is linked inside a Conditional, and add_node is restored on normal exit and on exception.
 R-C05.3  short-circuit forms never reach the expression compiler (the synthesiser's handlers
          for BoolOp / IfExp / NamedExpr raise internal errors; ExprBuilder lifts them).
 R-C05.4  compilers visit the parts of a node in field (= evaluation) order: callee before
